@@ -7,6 +7,7 @@ package main
 
 import (
 	"errors"
+	vsync "github.com/AdguardTeam/AdGuardHome/verifx/vsync"
 	"net"
 	"strings"
 
@@ -51,6 +52,9 @@ type service struct {
 	// failNext makes the next exchange fail (one shot); failed records that
 	// an exchange of the current check has failed.
 	failNext, failed bool
+	// yield makes every exchange a scheduling point of the cooperative
+	// scheduler before the question is read (schedule phase).
+	yield bool
 }
 
 var errServiceDown = errors.New("verif: lookup service unreachable")
@@ -59,6 +63,9 @@ func (s *service) Address() string { return "verif-service" }
 func (s *service) Close() error    { return nil }
 
 func (s *service) Exchange(req *dns.Msg) (*dns.Msg, error) {
+	if s.yield {
+		vsync.SchedPoint("exchange with the lookup service")
+	}
 	x := exch{NQuestions: len(req.Question), OtherSections: len(req.Answer) + len(req.Ns) + len(req.Extra)}
 	if len(req.Question) > 0 {
 		q := req.Question[0]
